@@ -321,6 +321,12 @@ func init() {
 					if s3.Uint64() != prng.BuildSeededRand(seed).Uint64() {
 						rep.Fail("C19.prng-seed", "seed data split into two arguments gives a different stream", fmt.Sprint("seed ", si))
 					}
+					// empty parts contribute no seed data wherever they stand
+					for _, parts := range [][][]byte{{seed[:1], nil, seed[1:]}, {nil, seed}, {seed[:1], {}, seed[1:], nil}} {
+						if prng.BuildSeededRand(parts...).Uint64() != prng.BuildSeededRand(seed).Uint64() {
+							rep.Fail("C19.prng-seed", "equal seed data with an empty part among the arguments gives a different stream", fmt.Sprint("seed ", si, " parts ", parts))
+						}
+					}
 				}
 				for mask := 0; mask < 1<<(total-1); mask++ {
 					idx++
